@@ -32,64 +32,84 @@ WF = os.path.join(HERE, "workflows")
 PROBES = {
     "C01": [("C01_l", "quick", "tile_fits([a, b], TOAST, parallel=1|2): every ancestor of a leaf tile gets exactly one cascade callback, after its children", 600),
             ("C01_m", "quick", "toasty view --tile-only --tiling-method toast -j 1|3 on two images: the same, through the command line", 600),
-            ("C01_n", "quick", 'cascade_images / Builder.cascade with three tile filters, parallel 1|2|3: callbacks exactly for the live parents (brute-force live set), children first', 900)],
+            ("C01_n", "quick", 'cascade_images / Builder.cascade with three tile filters, parallel 1|2|3: callbacks exactly for the live parents (brute-force live set), children first', 900),
+            ("C01_o", "quick", 'a second Builder.cascade into a pyramid that already has a top tile (two images composited; a study image re-tiled), parallel 1|2|3: callbacks for every live parent', 900)],
     "C02": [("C02_l", "quick", "tile_fits([a, b], TOAST, parallel=1|2): every tile above the start level is the 2x2 reduction of its children", 600),
             ("C02_m", "quick", "toasty cascade --format FMT in a directory holding npy and png tiles: parents of the requested format", 600),
-            ("C02_n", "quick", 'toasty cascade --format F -j 1|2 in a directory holding png, npy and fits base layers', 600)],
+            ("C02_n", "quick", 'toasty cascade --format F -j 1|2 in a directory holding png, npy and fits base layers', 600),
+            ("C02_o", "quick", 'cascade_images with a tile filter, parallel 1|2, cli_progress on and off, npy / fits / png: parents exist and equal the reduction', 900)],
     "C03": [("C03_l", "quick", "toasty transform u8-to-rgb --outdir, -j 1 vs -j 3: the same tiles are produced", 600),
             ("C03_m", "quick", "tile_fits([a, b], TAN) on images without a common grid, parallel 1 vs 3: returns, same pyramid", 900),
-            ("C03_n", "quick", 'toasty transform fx3-to-rgb in place and with --outdir, -j 1|3: every tile transformed exactly once', 600)],
+            ("C03_n", "quick", 'toasty transform fx3-to-rgb in place and with --outdir, -j 1|3: every tile transformed exactly once', 600),
+            ("C03_o", "quick", 'toasty transform u8-to-rgb --start D -j N for six (D, N) pairs: exactly the tiles of levels 0..D, each once, at most N workers', 900)],
     "C04": [("C04_l", "quick", "Pyramid (unfiltered / filtered / subpyramid) and sample_layer_filtered hand out the tiles create_single_tile gives, both coordinate systems", 600),
             ("C04_m", "quick", "Builder.toast_base / tile-allsky: sky, planet and panorama layouts", 600),
-            ("C04_n", "quick", 'toast_pixel_for_point vs toast_tile_for_point / create_single_tile / the generators, both coordinate systems', 600)],
+            ("C04_n", "quick", 'toast_pixel_for_point vs toast_tile_for_point / create_single_tile / the generators, both coordinate systems', 600),
+            ("C04_o", "quick", "several Pyramid.new_toast objects of different coordinate systems alive at once: each hands out its own system's tiles", 600)],
     "C05": [("C05_l", "quick", "Builder.toast_base(is_planet, tile_filter): sampler coordinates are the level n+8 tile centres", 600),
             ("C05_m", "quick", "sample_layer / tile-allsky at depth 0: the level-0 grid is the level-8 tile centres", 600),
-            ("C05_n", "quick", 'filtered pyramids and Builder.toast_base with an accept-all filter, both coordinate systems: coordinates are the level n+8 centres', 600)],
+            ("C05_n", "quick", 'filtered pyramids and Builder.toast_base with an accept-all filter, both coordinate systems: coordinates are the level n+8 centres', 600),
+            ("C05_o", "quick", 'create_single_tile vs generate_tiles at levels 1-3 and pixel grids vs level n+8 centres, both coordinate systems', 600)],
     "C06": [("C06_l", "thorough", "Builder.toast_base over depth, format, filter, coordinate system, workers: tile files hold the sampler's values at their own centres", 1800),
             ("C06_m", "thorough", "the same over both path schemes: file names derived from get_path_scheme()", 1800),
-            ("C06_n", "thorough", 'sample_layer_filtered / Builder.toast_base(tile_filter) in both coordinate systems, npy and fits, 1 and 3 workers', 1800)],
+            ("C06_n", "thorough", 'sample_layer_filtered / Builder.toast_base(tile_filter) in both coordinate systems, npy and fits, 1 and 3 workers', 1800),
+            ("C06_o", "quick", 'tile_fits(TOAST, override=True) into a directory holding an earlier tiling, parallel 1|2, progress on and off', 900)],
     "C07": [("C07_l", "quick", "chunked planetary tiling through Builder.toast_base(tile_filter) equals whole-map tiling", 600),
             ("C07_m", "quick", "tile_fits([a, b], TOAST): the filtered cascade leaves no holes (equals the unfiltered cascade of the base level)", 600),
-            ("C07_n", "quick", 'a planetary map served in ragged chunks: each chunk, all chunks in sequence, and the filtered leaf set', 900)],
+            ("C07_n", "quick", 'a planetary map served in ragged chunks: each chunk, all chunks in sequence, and the filtered leaf set', 900),
+            ("C07_o", "quick", 'ChunkedJPEG2000Reader (in-memory stand-in for glymur) with non-square chunks: every chunk sampled, equals whole-map sampling', 900)],
     "C08": [("C08_l", "quick", "Builder.tile_base_as_study into both path schemes, tiles read back through the WTML Url template", 600),
             ("C08_m", "quick", "MultiTanProcessor.tile parallel 2 vs 1 on FITS pieces: the centred mosaic, partly filled tiles included", 600),
-            ("C08_n", "quick", 'toasty tile-study --crop in nine spellings on two images, tiles read back through the WTML', 600)],
+            ("C08_n", "quick", 'toasty tile-study --crop in nine spellings on two images, tiles read back through the WTML', 600),
+            ("C08_o", "quick", 'one-pixel-wide / one-pixel-high and small images in five modes through Builder.tile_base_as_study and tile-study', 600)],
     "C09": [("C09_l", "quick", "tile_fits(pieces, blankval=0, TAN) in both orders equals tile_fits(assembled mosaic)", 600),
             ("C09_m", "quick", "MultiTanProcessor.tile(parallel=2|4) with a slow hand-over of the last image equals the serial mosaic", 900),
-            ("C09_n", "quick", 'tile_fits(five overlapping zero-padded windows, blankval=0) in three orders and both parities vs the mosaic', 900)],
+            ("C09_n", "quick", 'tile_fits(five overlapping zero-padded windows, blankval=0) in three orders and both parities vs the mosaic', 900),
+            ("C09_o", "quick", 'toasty view --tiling-method tan --blankval=-999 on two overlapping parts, both orders, 1 and 2 workers, vs the mosaic', 900)],
     "C10": [("C10_l", "quick", "three Builder.toast_base processes updating one tile: no contribution lost, mutual exclusion kept", 900),
             ("C10_m", "quick", "toasty tile-multi-tan --parallelism 1|2 on overlapping images: shared tiles keep every contribution", 600),
-            ("C10_n", "quick", 'MultiWcsProcessor.tile(parallel=3) with a forced overlap attempt on one tile: every contribution kept', 900)],
+            ("C10_n", "quick", 'MultiWcsProcessor.tile(parallel=3) with a forced overlap attempt on one tile: every contribution kept', 900),
+            ("C10_o", "quick", 'four concurrent update_image callers on a tile in a not-yet-existing row directory: every contribution kept', 600)],
     "C11": [("C11_l", "quick", "toasty tile-allsky --projection plate-carree(-galactic): every tile pixel is the map cell containing its sky point", 600),
             ("C11_m", "quick", "toasty tile-allsky at depth 0 vs depth 1 for the planetary projections", 600),
-            ("C11_n", "quick", 'toasty tile-allsky --crop=V,H vs --crop=V,H,V,H: sampler arrays and tile pixels', 600)],
+            ("C11_n", "quick", 'toasty tile-allsky --crop=V,H vs --crop=V,H,V,H: sampler arrays and tile pixels', 600),
+            ("C11_o", "quick", 'toasty tile-allsky --colorspace-processing none on a map with an ICC profile, four projections: stored pixel values', 600)],
     "C12": [("C12_l", "thorough", "toast_pixel_for_point alternating between the two coordinate systems", 900),
             ("C12_m", "quick", "toast_pixel_for_point at depths 1..22 against a double-precision oracle", 900),
-            ("C12_n", "quick", 'tile and pixel lookup over all longitudes, depths 1..: containment, nesting, 2pi periodicity, brute-force nearest centre', 900)],
+            ("C12_n", "quick", 'tile and pixel lookup over all longitudes, depths 1..: containment, nesting, 2pi periodicity, brute-force nearest centre', 900),
+            ("C12_o", "thorough", '174 points x depths 0-8 x both systems against an independently rebuilt tiling: containment, nesting, periodicity, pixel', 1800)],
     "C13": [("C13_l", "quick", "tile_fits([a, b], TOAST, depth 4): cascade visits vs count_operations of the pyramid covering all inputs", 600),
             ("C13_m", "quick", "subpyramid counts and visits for every apex at depths 0..3, four kinds of pyramid", 600),
-            ("C13_n", "quick", 'count_tiles_matching_filter vs enumeration, the three Pyramid counters, callbacks and the closed forms (80 cases)', 600)],
+            ("C13_n", "quick", 'count_tiles_matching_filter vs enumeration, the three Pyramid counters, callbacks and the closed forms (80 cases)', 600),
+            ("C13_o", "quick", 'reported leaf counts vs serial and PARALLEL leaf visits for TOAST and generic pyramids, three apex choices, and tile-allsky at depth 0', 900)],
     "C14": [("C14_l", "quick", "tile_fits([bright, faint], TOAST): root DATAMIN/DATAMAX, ImageSet and WTML carry both images' range", 600),
             ("C14_m", "quick", "two TAN panels with an off-grid seam (tile_fits, tile-multi-tan + cascade): leaf headers, root and WTML", 600),
-            ("C14_n", "quick", 'two TAN chips sharing a leaf tile (tile_fits parallel 1|2, tile-multi-tan + cascade): every header, ImageSet, WTML', 600)],
+            ("C14_n", "quick", 'two TAN chips sharing a leaf tile (tile_fits parallel 1|2, tile-multi-tan + cascade): every header, ImageSet, WTML', 600),
+            ("C14_o", "quick", 'leaves whose recorded minimum or maximum is exactly 0 (sparse depth-3 pyramids, parallel 1|2; tile_fits on a counts image)', 600)],
     "C15": [("C15_l", "quick", "tile_fits([a, b], TOAST): the later image's undefined pixels do not erase the earlier image", 600),
             ("C15_m", "quick", "toasty tile-study + cascade -j 1: parents are undefined where all their sources are", 600),
-            ("C15_n", "quick", 'toasty tile-study --black-to-transparent on RGBA input into a directory with stale tiles, then cascade', 600)],
+            ("C15_n", "quick", 'toasty tile-study --black-to-transparent on RGBA input into a directory with stale tiles, then cascade', 600),
+            ("C15_o", "quick", 'toasty view --tile-only --blankval 0 / 0.0: declared-blank pixels stay undefined, all-blank tiles are not stored', 600)],
     "C16": [("C16_l", "quick", "toasty tile-study --fits-wcs with a rescaled reference: no pixel moves on the sky", 600),
             ("C16_m", "quick", "toasty tile-study --avm on non-square images: no pixel moves on the sky", 600),
-            ("C16_n", "quick", 'collection.load of a cube with a degenerate axis: Image and ImageDescription after ensure_negative_parity, tile-multi-tan centre', 600)],
+            ("C16_n", "quick", 'collection.load of a cube with a degenerate axis: Image and ImageDescription after ensure_negative_parity, tile-multi-tan centre', 600),
+            ("C16_o", "quick", 'Image.from_array(data, wcs) flipped and tiled into a FITS pyramid through the Builder: every pixel at its sky position', 600)],
     "C17": [("C17_l", "quick", "tile_fits([fine, coarse], TOAST) without start: TileLevels vs the deepest populated level", 600),
             ("C17_m", "quick", "toasty tile-study plain / --avm / --avm-from: Url, FileType, TileLevels vs the directory tree", 600),
-            ("C17_n", "quick", 'toasty pipeline init/refresh/fetch/process-todos with an AstroPix-type source: WTML template vs the files', 600)],
+            ("C17_n", "quick", 'toasty pipeline init/refresh/fetch/process-todos with an AstroPix-type source: WTML template vs the files', 600),
+            ("C17_o", "quick", 'toasty pipeline process-todos with a Djangoplicity-type source: WTML template vs the files', 600)],
     "C18": [("C18_l", "quick", "pipeline publish dying inside the index.wtml transfer, then refresh", 600),
             ("C18_m", "quick", "pipeline publish failing at each transfer, four listing orders, then refresh and re-publish", 600),
-            ("C18_n", "quick", 'the pipeline command line with a failure injected at 120 points of publish, then the re-run: store vs approved files vs refresh', 900)],
+            ("C18_n", "quick", 'the pipeline command line with a failure injected at 120 points of publish, then the re-run: store vs approved files vs refresh', 900),
+            ("C18_o", "quick", 'publish fails, the image is re-processed and re-approved, publish re-run: it completes', 600)],
     "C19": [("C19_l", "quick", "serial walk / visit_leaves / toasty cascade -j 1 with the progress bar on: an I/O error on a tile is reported", 600),
             ("C19_m", "quick", "tile_fits(TOAST, parallel=1) with a failing merger raises instead of hanging", 600),
-            ("C19_n", "quick", 'SLURM_NPROCS=4 with explicit parallel=1 / -j 1: visit_leaves, walk, toasty cascade, u8_to_rgb report a failing tile', 600)],
+            ("C19_n", "quick", 'SLURM_NPROCS=4 with explicit parallel=1 / -j 1: visit_leaves, walk, toasty cascade, u8_to_rgb report a failing tile', 600),
+            ("C19_o", "quick", 'toasty transform u8-to-rgb --parallelism 1 with a damaged tile raises', 600)],
     "C20": [("C20_l", "quick", "toasty tile-multi-tan --wcs-key A: the alternate WCS places the image", 600),
             ("C20_m", "quick", "a multi-extension file named several times with per-file HDU indices (load, tile_fits, toasty view)", 600),
-            ("C20_n", "quick", "tile_fits([b, a], hdu_index=[1, 2]) / wcs_key=['A', ' '] with unsorted paths; default out_dir", 600)],
+            ("C20_n", "quick", "tile_fits([b, a], hdu_index=[1, 2]) / wcs_key=['A', ' '] with unsorted paths; default out_dir", 600),
+            ("C20_o", "quick", 'toasty view --hdu-index lists with a multi-extension file named several times', 600)],
 }
 
 
